@@ -201,6 +201,30 @@ def check_measurement(res, rec, rng):
                 rec.violation("measurement-interpolation",
                               f"get_measurement between grid points is not linear in re/im for "
                               f"'{which}' (max dev {np.max(np.abs(got - exp) / scale):.3e})")
+        # queries that resemble the grid in a summary only: as many points as the grid and the
+        # same end points (linear / geometric resampling), the grid reversed, the grid with one
+        # interior point moved
+        if len(f) >= 3 and np.all(np.isfinite(tab)):
+            qs = [np.linspace(float(f[0]), float(f[-1]), len(f)), np.asarray(f)[::-1].copy()]
+            if f[0] > 0:
+                qs.append(np.geomspace(float(f[0]), float(f[-1]), len(f)))
+            q1 = np.asarray(f, dtype=float).copy()
+            jm = int(rng.integers(1, len(f) - 1))
+            q1[jm] = 0.5 * (q1[jm - 1] + q1[jm])
+            qs.append(q1)
+            for q in qs:
+                q[0], q[-1] = (float(f[0]), float(f[-1])) if q[0] <= q[-1] else (float(f[-1]), float(f[0]))
+                exp = np.interp(q, f, tab.real) + (1j * np.interp(q, f, tab.imag)
+                                                   if np.iscomplexobj(tab) else 0.0)
+                got = np.asarray(res.get_measurement(q, which))
+                scale = max(float(np.max(np.abs(tab))), 1e-300)
+                rec.count("measurement_queries_grid_lookalike")
+                if got.shape != exp.shape or np.any(np.abs(got - exp) > 1e-9 * scale):
+                    rec.violation("measurement-interpolation",
+                                  f"get_measurement('{which}') at {len(q)} points with the grid's end "
+                                  f"points but another interior is not the linear interpolant (max dev "
+                                  f"{float(np.max(np.abs(got - exp))) / scale:.3e} of the largest value)")
+                    break
         # list input, exact end points
         ends = np.asarray(res.get_measurement([float(f[0]), float(f[-1])], which))
         if ends.shape != (2,) or abs(ends[0] - tab[0]) > 1e-12 * abs(tab[0]) \
